@@ -102,6 +102,13 @@ def check(ctx):
                 calls = [x for x in walk(body) if (x.get("k") == "mcall" and x["method"] in RENDER_CALLS)
                          or (x.get("k") == "call" and expr_text(x["func"]).split("::")[-1] in RENDER_CALLS)]
                 lookups = [x for x in walk(body) if x.get("k") == "mcall" and x["method"] == "get" and "mapping" in expr_text(x["recv"])]
+                if not lookups:
+                    # ... or through a private helper that was not there at the pinned commit (`self.mapped_type_for(name)`)
+                    from srclib import is_new_helper, walk_block_deep
+                    for x in walk(body):
+                        cal = x["method"] if x.get("k") == "mcall" else (x["func"]["segs"][-1] if x.get("k") == "call" and x["func"].get("k") == "path" else None)
+                        for g_ in [y for y in S.fns if cal and y.name == cal and y.body is not None and y.file == fn.file and is_new_helper(y)]:
+                            lookups += [y for y in walk_block_deep(S, g_) if y.get("k") == "mcall" and y["method"] == "get" and "mapping" in expr_text(y["recv"])]
                 if calls or lookups:
                     r1.ok("%s: Custom arm delegates to %s" % (fn.qname, sorted(set((x.get("method") or expr_text(x["func"])) for x in calls)) or "a type_mappings lookup"))
                 else:
@@ -222,6 +229,8 @@ def check(ctx):
         for c in f.calls:
             recv = f.describe_origin(f.origin(c.args[0]), deep=2) if c.args else ""
             if "type_mappings" in recv and "HashMap" in (c.path + (c.self_ty or "")):
+                if not short_path(c.path).startswith("HashMap::") and c.name in ("as_ref", "as_deref", "branch", "from_residual", "is_some", "is_none", "clone", "cloned", "and_then", "map", "unwrap_or", "unwrap_or_default", "ok_or", "ok_or_else", "deref"):
+                    continue        # reaching the Option<HashMap> itself (`.as_ref()?`, `.and_then(..)`): not a lookup in the map
                 if short_path(c.path) == "HashMap::get":
                     # ... with the type's own name as the key: the function's name parameter or the payload of TypeStructure::Custom, unaltered
                     # (a key that was split / trimmed / re-cased first no longer finds `DateTime<Utc>`-style entries, or finds entries of other types)
